@@ -239,7 +239,7 @@ def _only(rule_fn, keep):
     return wrapped
 
 
-RULES = [("R-11f", r11f), ("R-11a", r11a), ("R-11b", r11b), ("R-11c", r11c), ("R-11d", r11d),
+RULES = [("R-11f", r11f), ("R-08i", _only(c08.r08i, lambda c: c.startswith("_PyMemoryState"))), ("R-03h", c03.r03h), ("R-11a", r11a), ("R-11b", r11b), ("R-11c", r11c), ("R-11d", r11d),
          ("R-02g", _only(c02.r02g, lambda c: c.startswith("_PyMemoryState"))),
          ("R-05d", _only(c05.r05d, lambda c: "_Row" in c)),
          ("R-04d", _only(c04.r04d, lambda c: any(k in c for k in ("write-enable", "write_port", "read_port", "TRANSPARENCY", "write-port-ids", "write_ports")))),
